@@ -19,6 +19,7 @@ BITS = 'crysp/bits.py'
 
 
 def run(ctx):
+    integrity(ctx, ['crysp/bits.py'])
     ctx.rule('C07-R1 closed forms')
 
     def closed():
